@@ -1,6 +1,6 @@
 (* C10 - mmCIF and PDB encodings of one structure give the same result.
    Property theorems only; model in Model/CifLine.v (cif.atom_site AFTER the repairs
-   fix_C10_P1..P4), proofs in Proofs/CifLine.v.
+   fix_C10_P1..P6), proofs in Proofs/CifLine.v.
 
    FULL STATEMENT (what the property text asks of the two readers), for every
    covered missing-value convention mv of the mmCIF library and every _atom_site
@@ -8,30 +8,28 @@
 
        forall mv r, mv_ok mv = true -> expressible r = true -> agrees mv r
 
-   (agrees = cif.atom_site's assembled line parsed by pdb.ATOM/HETATM, and the
-   PDB v3.3 record of the same row parsed by the same class, both succeed and give
-   the same record kind, serial, atom name, alt-loc, residue name, chain, residue
-   number, insertion code and coordinate texts.  mv_ok: '.' and '?' arrive as one
-   of "", ".", "?", None - the installed mmcif_pdbx 2.1.0 and verbatim readers.)
-
-   After the repairs this holds for alternate locations, insertion codes,
-   4-character atom names, 8-character coordinates, 6-character occupancies,
-   label_asym_id <> auth_asym_id and both library conventions (they were six
-   refuted classes before).  It is still REFUTED where label_atom_id <>
-   auth_atom_id or label_comp_id <> auth_comp_id (atom and residue name are read
-   from the label_ items, the PDB file carries the auth_ ones): C10_label_comp_refuted,
-   C10_label_atom_refuted; [guard] is exactly [expressible] minus that class.
-   The formal charge (columns 79-80) is still not written; it is not among the
-   fields the property names (C10_formal_charge_field_dropped).
+   It is now PROVED (C10_cif_eq_pdb_agrees), in the stronger form that the line
+   cif.atom_site assembles IS the PDB v3.3 record of the row, character for character
+   (C10_cif_line_is_pdb_record), so that all sixteen parsed fields - alternate
+   location, insertion code, four-character names, formal charge included - are
+   those of the atom the row denotes (C10_cif_eq_pdb), and whole loops with one or
+   several models give one record per row (C10_atom_site_single, C10_atom_site_models).
+   mv_ok: '.' and '?' arrive as one of "", ".", "?", None - the installed
+   mmcif_pdbx 2.1.0 and verbatim readers; outside it the statement is false
+   (C10_mv_ok_needed).  expressible: the fields fit their PDB columns; the atom and
+   residue name are the auth_ item when the row gives one, else the label_ item; a
+   name, alt-loc or insertion code that is literally "." or "?" is outside (it cannot
+   be told from a missing value once a reader is verbatim).
    Charges and radii are computed by the pipeline after the readers; identical
-   records give identical runs (explored by the harness, not a theorem here). *)
+   records give identical runs (explored by the harness, and composed with the ingest
+   and print models in Properties/E2E_CifClean.v; not a theorem here). *)
 From Coq Require Import String List ZArith.
 From PV Require Import Lib.Strings Lib.Decimal Model.CifLine Proofs.CifLine.
 Import ListNotations.
 Local Open Scope string_scope.
 
-(* PDB side, full strength: the PDB v3.3 line of every expressible row parses,
-   with pdb.ATOM/HETATM, to exactly the atom the row denotes (all 16 fields) *)
+(* PDB side: the PDB v3.3 line of every expressible row parses, with pdb.ATOM/HETATM,
+   to exactly the atom the row denotes (all 16 fields) *)
 Theorem C10_spec_roundtrip : forall r k,
   expressible r = true -> spec_kind r = Some k ->
   exists serial seq,
@@ -39,42 +37,48 @@ Theorem C10_spec_roundtrip : forall r k,
     parse_atom k (pdb_line_of_row r) = Ok (fields_of_row k serial seq r).
 Proof. exact spec_roundtrip. Qed.
 
-(* mmCIF = PDB on every expressible row whose label atom/residue names are the author's,
-   for every covered library convention: both readers succeed and return the atom the row denotes *)
-Theorem C10_cif_eq_pdb_partial : forall mv r,
-  mv_ok mv = true -> guard r = true ->
-  exists k serial seq l f,
+(* the line the mmCIF reader hands to pdb.ATOM/HETATM is the PDB record of the row *)
+Theorem C10_cif_line_is_pdb_record : forall mv r k,
+  mv_ok mv = true -> expressible r = true -> spec_kind r = Some k ->
+  row_line mv r = Ok (Some (k, pdb_line_of_row r)).
+Proof. exact cif_line_is_pdb_record. Qed.
+
+(* mmCIF = PDB for every expressible row under every covered convention, all 16 fields
+   (kind, serial, name, alt-loc, residue, chain, number, insertion code, x, y, z,
+   occupancy, B, segment, element, formal charge) *)
+Theorem C10_cif_eq_pdb : forall mv r,
+  mv_ok mv = true -> expressible r = true ->
+  exists k serial seq,
     spec_kind r = Some k /\
-    row_fields mv r = Ok (Some (l, f)) /\
-    parse_atom k (pdb_line_of_row r) = Ok (fields_of_row k serial seq r) /\
-    primary f = primary (fields_of_row k serial seq r).
-Proof. exact cif_eq_pdb_partial. Qed.
+    row_fields mv r = Ok (Some (pdb_line_of_row r, fields_of_row k serial seq r)) /\
+    parse_atom k (pdb_line_of_row r) = Ok (fields_of_row k serial seq r).
+Proof. exact cif_eq_pdb. Qed.
+
+(* the full statement as written above *)
+Theorem C10_cif_eq_pdb_agrees : forall mv r,
+  mv_ok mv = true -> expressible r = true -> agrees mv r.
+Proof. exact cif_agrees. Qed.
 
 (* in particular for the installed mmcif_pdbx 2.1.0 and for a verbatim reader *)
 Theorem C10_cif_eq_pdb_both_conventions : forall r,
-  guard r = true -> agrees mv_installed r /\ agrees mv_legacy r.
+  expressible r = true -> agrees mv_installed r /\ agrees mv_legacy r.
 Proof. exact cif_eq_pdb_both. Qed.
 
-(* ... and all sixteen parsed fields (occupancy, B, segment, element, charge too)
-   whenever the PDB record's charge columns are blank *)
-Theorem C10_cif_full_partial : forall mv r k,
-  mv_ok mv = true -> guard r = true -> charge_blank r = true -> spec_kind r = Some k ->
-  exists serial seq l,
-    py_int (tok_or "" (id r)) = Ok serial /\ py_int (tok_or "" (auth_seq_id r)) = Ok seq /\
-    row_fields mv r = Ok (Some (l, fields_of_row k serial seq r)).
-Proof. exact cif_full_partial. Qed.
+(* the convention hypothesis cannot be dropped *)
+Theorem C10_mv_ok_needed : exists mv r, mv_ok mv = false /\ expressible r = true /\ ~ agrees mv r.
+Proof. exact mv_ok_needed. Qed.
 
 (* whole atom_site(block), one model: one record per row, in file order, nothing
-   skipped, no exception, no error entry *)
-Theorem C10_atom_site_single_partial : forall mv rows m,
+   skipped, no exception, no error entry  (guard r = expressible r) *)
+Theorem C10_atom_site_single : forall mv rows m,
   mv_ok mv = true -> rows <> [] ->
-  (forall r, In r rows -> guard r = true /\ pdbx_PDB_model_num r = Tok m) ->
+  (forall r, In r rows -> expressible r = true /\ pdbx_PDB_model_num r = Tok m) ->
   exists recs, atom_site mv rows = mkout recs [] None /\ Forall2 (row_ok mv) rows recs.
 Proof. exact atom_site_single_partial. Qed.
 
 (* several models: MODEL n / that model's rows in file order / ENDMDL for each
-   distinct model number in order of first appearance *)
-Theorem C10_atom_site_models_partial : forall mv rows models,
+   distinct model number (1-4 characters, an integer) in order of first appearance *)
+Theorem C10_atom_site_models : forall mv rows models,
   mv_ok mv = true -> rows_good rows ->
   count_models mv rows [] = Ok models -> List.length models <> 1 ->
   exists blocks,
@@ -82,49 +86,27 @@ Theorem C10_atom_site_models_partial : forall mv rows models,
     Forall2 (block_ok mv rows) models blocks.
 Proof. exact atom_site_models_partial. Qed.
 
-(* still refuted: the residue name comes from label_comp_id (PDB: auth_comp_id) *)
-Theorem C10_label_comp_refuted : exists r l f,
-  expressible r = true /\ c_label_ne_auth r = true /\
-  ~ agrees mv_installed r /\ ~ agrees mv_legacy r /\
-  auth_comp_id r = Tok "HOH" /\ row_fields mv_installed r = Ok (Some (l, f)) /\ f_resname f = "WAT".
-Proof. exact label_comp_refuted. Qed.
-
-(* still refuted: the atom name comes from label_atom_id (PDB: auth_atom_id) *)
-Theorem C10_label_atom_refuted : exists r l f,
-  expressible r = true /\ c_label_ne_auth r = true /\
-  ~ agrees mv_installed r /\ ~ agrees mv_legacy r /\
-  auth_atom_id r = Tok "CA1" /\ row_fields mv_installed r = Ok (Some (l, f)) /\ f_name f = "CA".
-Proof. exact label_atom_refuted. Qed.
-
-(* formal charge: same atom in the fields the property names, but columns 79-80
-   are never written (only --pdb-output shows it) *)
-Theorem C10_formal_charge_field_dropped : exists r k l f fs,
-  guard r = true /\ pdbx_formal_charge r = Tok "1" /\
-  spec_kind r = Some k /\ row_fields mv_installed r = Ok (Some (l, f)) /\
-  parse_atom k (pdb_line_of_row r) = Ok fs /\
-  primary f = primary fs /\ f_chg fs = "1+" /\ f_chg f = "".
-Proof. exact formal_charge_refuted. Qed.
-
-(* non-vacuity and regression: the former refutation witnesses (ordinary row with the
-   installed library, alt-loc, HD21, insertion code, -100.123, occupancy 1.0000,
-   label_asym_id B / auth_asym_id A, formal charge) are inside the guard and agree under
-   both conventions; HD21 and -100.123 are read back exactly *)
+(* non-vacuity and regression: all former refutation witnesses and a row without auth
+   names are expressible and agree under both conventions; the formal charge (1+, 2-),
+   the author's names (HOH, CA1), the label fallback (CA, LYS) and -100.123 come back *)
 Example C10_guard_nonvacuous :
-  forallb guard fixed_witnesses = true /\
+  forallb expressible fixed_witnesses = true /\
   forallb (agreesb mv_installed) fixed_witnesses = true /\
   forallb (agreesb mv_legacy) fixed_witnesses = true /\
-  (exists l, row_fields mv_installed w_name4 = Ok (Some (l, fields_of_row KATOM 7 12 w_name4))) /\
-  (exists l, row_fields mv_installed w_wide = Ok (Some (l, fields_of_row KATOM 7 12 w_wide))
-             /\ f_x (fields_of_row KATOM 7 12 w_wide) = "-100.123").
+  (exists l, row_fields mv_installed w_charge = Ok (Some (l, fields_of_row KATOM 7 12 w_charge))
+             /\ f_chg (fields_of_row KATOM 7 12 w_charge) = "1+") /\
+  (exists l f, row_fields mv_legacy w_comp = Ok (Some (l, f)) /\ f_resname f = "HOH") /\
+  (exists l f, row_fields mv_installed w_atomname = Ok (Some (l, f)) /\ f_name f = "CA1") /\
+  (exists l f, row_fields mv_installed w_noauth = Ok (Some (l, f)) /\ f_name f = "CA" /\ f_resname f = "LYS" /\ f_chg f = "2-") /\
+  (exists l f, row_fields mv_installed w_wide = Ok (Some (l, f)) /\ f_x f = "-100.123").
 Proof. exact guard_nonvacuous. Qed.
 
 Print Assumptions C10_spec_roundtrip.
-Print Assumptions C10_cif_eq_pdb_partial.
+Print Assumptions C10_cif_line_is_pdb_record.
+Print Assumptions C10_cif_eq_pdb.
+Print Assumptions C10_cif_eq_pdb_agrees.
 Print Assumptions C10_cif_eq_pdb_both_conventions.
-Print Assumptions C10_cif_full_partial.
-Print Assumptions C10_atom_site_single_partial.
-Print Assumptions C10_atom_site_models_partial.
-Print Assumptions C10_label_comp_refuted.
-Print Assumptions C10_label_atom_refuted.
-Print Assumptions C10_formal_charge_field_dropped.
+Print Assumptions C10_mv_ok_needed.
+Print Assumptions C10_atom_site_single.
+Print Assumptions C10_atom_site_models.
 Print Assumptions C10_guard_nonvacuous.
